@@ -23,8 +23,10 @@ THEOREMS = ['Props.C06.' + t for t in ['scan_reads_selected_lines', 'history_tab
                                     'history_cell_eq_stepping_cell_partial', 'history_table_eq_stepping_partial',
                                     'history_series_visits_every_time', 'series_one_value_per_time', 'history_one_table_is_one_scan',
                                     'ordered_selection_never_spins', 'history_spins_iff_some_position_spins', 'history_table_spins_iff',
-                                    'skip_to_results_line_spins_iff']]
-LEVEL_TEXT = ('Proof: 17 Lean theorems about the model of t2listing.history(): the one-pass read of the selected rows of a table returns for every '
+                                    'skip_to_results_line_spins_iff',
+                                    'history_table_eq_stepping_region_partial', 'history_table_eq_stepping_AUTOUGH2_partial',
+                                    'history_scan_starts_at_first_data_line_AUTOUGH2']]
+LEVEL_TEXT = ('Proof: 20 Lean theorems about the model of t2listing.history(): the one-pass read of the selected rows of a table returns for every '
               'entry (any number, any order, repeated rows) exactly the cell that the row reader gives for that row line, with the same exception '
               'when a cell cannot be read (scan_reads_selected_lines, history_table_eq_cells); a reversed connection name yields the negated value; '
               'a history() call that returns leaves index, time, step and every table of the reader unchanged (history_leaves_reader_unchanged, '
@@ -45,8 +47,14 @@ LEVEL_TEXT = ('Proof: 17 Lean theorems about the model of t2listing.history(): t
               'history_table_spins_iff - at one position, reading the selected lines of one table fails to return iff no remaining line is a results line of that table (exact); '
               'skip_to_results_line_spins_iff. Not proved: an exact condition for skip_to_table_* (for AUTOUGH2 only that it can spin nowhere but in skip_to_nonblank, Proofs/ListingSeriesTerm.lean), '
               'hence no closed well-formedness condition on a file that implies termination of the whole call. '
-              'Still not proved: that row_line[] recorded at set-up equals the row-line offsets used by stepping, that skip_to_table lands on the table (Aligned), '
-              'and the AUTOUGH2 row loop against stepping.')
+              'history_table_eq_stepping_region_partial: for the TOUGH2-family row reader, from the decidable region predicate of the table (Props.C05.TableRegionT: header lines, then one '
+              'printed data line per recorded skiplines entry) alone - the stepping reader read_table_TOUGH2 succeeds on the region and the one-pass read of any selection returns the cells of the table it builds '
+              '(row = the row named on the data line, printed once); rowInPlace and a successful row loop are no longer assumed, because the k-th row-line offset of the scan is proved to be the k-th data line of the region. '
+              'history_table_eq_stepping_AUTOUGH2_partial: the same for the AUTOUGH2 row loop (read_table_AUTOUGH2 fills row j from the j-th data line up to the terminator; history() reads line j with the same '
+              'read_table_line_AUTOUGH2), from the decidable region predicate Props.C05.TableRegionA, any selection of printed rows, reversed names negated. '
+              'history_scan_starts_at_first_data_line_AUTOUGH2: from the column header of an AUTOUGH2 table region skip_to_results_line stops at the first printed data line (the lines that pass is about). '
+              'Still not proved: that row_line[r] recorded by the loop of setup_table_TOUGH2 equals the row-line offset rowOffset(skiplines, k) of the data line naming row r (it is a hypothesis on the selected entries; '
+              'the region theorem removes rowInPlace but not this), and that skip_to_table lands on the table (Aligned); both are evaluated per file by the correspondence.')
 LEVEL_NOTE = ('Trusted: Lean kernel (+propext, Classical.choice, Quot.sound); the hand-written whole-file model (history() of the model vs the real call: same '
               'selections, series bit-equal, None/exception class equal, on every run); that the lines history() reaches by skip_to_table + '
               'skip_to_results_line are the lines read_tables reads (the Aligned hypothesis) is checked by the correspondence and the oracle on the '
